@@ -8,6 +8,7 @@ package c03
 
 import (
 	"bytes"
+	"compress/gzip"
 	"crypto/sha256"
 	"encoding/base64"
 	"encoding/json"
@@ -87,6 +88,17 @@ func probeCounters(path, scratch string, key tink.AEAD, m *refmodel.Model) error
 	return nil
 }
 
+// gzipOf returns a complete, valid gzip stream (values that ARE archives: a .gz, a .tar.gz bundle).
+func gzipOf(unit string, n int) []byte {
+	var buf bytes.Buffer
+	zw := gzip.NewWriter(&buf)
+	for i := 0; i < n; i++ {
+		zw.Write([]byte(unit))
+	}
+	zw.Close()
+	return buf.Bytes()
+}
+
 func TestC03(t *testing.T) {
 	r := evid.Start("C03", "exploration")
 	defer r.Finish(t)
@@ -96,7 +108,8 @@ func TestC03(t *testing.T) {
 	nHist := r.N(1500, 20000)
 	cfg := ops.GenCfg{
 		Names:  []string{"a", "a", "b", "c/d\n", "", "_internal/x", "alerts/disk%20full", "t/acme%2Fprod", "100%", "pct%zz"},
-		Values: [][]byte{[]byte(""), []byte("one"), []byte("two"), {0, 255, 254, '"', '\\'}},
+		Values: [][]byte{[]byte(""), []byte("one"), []byte("two"), {0, 255, 254, '"', '\\'}, gzipOf("a certificate bundle, compressed by whoever stored it\n", 40), gzipOf("x", 1),
+			[]byte("eyJhbGciOiJIUzI1NiJ9.e30.c2ln"), []byte("-----BEGIN KEY-----\nQUJD\n-----END KEY-----\n"), []byte(`{"Value":"QUJD","Version":3}`), []byte("QUJD"), bytes.Repeat([]byte("compressible "), 200)},
 		Weights: map[ops.Kind]int{ops.List: 0, ops.Info: 1, ops.Get: 1, ops.GetVer: 1, ops.GetCond: 1,
 			ops.Put: 10, ops.Act: 5, ops.DelVer: 6, ops.Delete: 2},
 	}
